@@ -2,7 +2,7 @@
 Require Extraction.
 Require Import ExtrOcamlBasic.
 From Gokrb5.lib Require Import Bytes JV.
-From Gokrb5.model Require Import Keytab CCache GSSToken Crypto GSSVerify PAData Replay Network APReq Spnego HttpClient KDCRep DER DERCodec ClientSM Krb5Conf Hosts LenOctets Flags Framing PAC GoASN1 APReqBytes.
+From Gokrb5.model Require Import Keytab CCache GSSToken Crypto GSSVerify PAData Replay Network APReq Spnego HttpClient KDCRep DER DERCodec ClientSM Krb5Conf Hosts LenOctets Flags Framing PAC GoASN1 APReqBytes SpnegoBytes KDCRepBytes.
 Extraction "model.ml" jv
   kt_unmarshal_j kt_marshal_j kt_getkey_j
   wrap_marshal_j wrap_unmarshal_j mic_marshal_j mic_unmarshal_j wrap_verify_j mic_verify_j
@@ -16,4 +16,6 @@ Extraction "model.ml" jv
   set_flag_j unset_flag_j is_flag_set_j is_flag_set_orig_j kdc_options_widen_j
   choice_encode_j choice_decode_j gss_frame_j gss_unframe_j krb5_token_j krb5_untoken_j
   pac_process_j pac_unmarshal_j sig_unmarshal_j client_info_j
-  verify_apreq_bytes_j apreq_decode_j.
+  verify_apreq_bytes_j apreq_decode_j
+  spnego_serve_bytes_j spnego_accept_bytes_j spnego_decode_j
+  asrep_verify_bytes_j tgsrep_verify_bytes_j parse_kdc_rep_j dec_enc_der_j.
